@@ -29,6 +29,8 @@
 import LDEval.Proofs.CodecLemmas
 import LDEval.Spec.EvalSpec
 import LDEval.Properties.C14
+import LDEval.Model.Builders
+import LDEval.Proofs.AuditCodecEntry
 
 namespace LD.C15
 
@@ -1889,5 +1891,644 @@ example (s : Segment) (h : Codec.readSegment exSegDoc = .ok s) :
 #print axioms readSegment_plain
 #print axioms normValue_idem
 
+
+/-! ## Strengthened statements (theorem audit) -/
+
+/-! ### Literal names under a context kind -/
+
+theorem unescape_escapeLit (l : List Char) : Ref.unescape (Ref.escapeLit l) = some l := by
+  induction l with
+  | nil => rfl
+  | cons c rest ih =>
+    by_cases h1 : c = '~'
+    · subst h1; simp [Ref.escapeLit, Ref.unescape, ih]
+    · by_cases h2 : c = '/'
+      · subst h2; simp [Ref.escapeLit, Ref.unescape, ih]
+      · rw [Ref.escapeLit.eq_4 _ _ h1 h2]
+        rw [Ref.unescape.eq_5]
+        · simp [ih]
+        · intro r hr _; exact h1 hr
+        · intro r hr _; exact h1 hr
+        · intro hr; exact h1 hr
+
+
+theorem escapeLit_no_slash (l : List Char) : '/' ∉ Ref.escapeLit l := by
+  induction l with
+  | nil => simp [Ref.escapeLit]
+  | cons c rest ih =>
+    by_cases h1 : c = '~'
+    · subst h1; simp [Ref.escapeLit, ih]
+    · by_cases h2 : c = '/'
+      · subst h2; simp [Ref.escapeLit, ih]
+      · rw [Ref.escapeLit.eq_4 _ _ h1 h2]
+        simp [ih, Ne.symm h2]
+
+/-- `NewRef(NewLiteralRef(name).String()) = NewLiteralRef(name)`: the path string written for a
+literal attribute name under a context kind is read back as the same reference. -/
+theorem newRef_newLiteral_raw (name : String) (h : name ≠ "") :
+    Ref.newRef (Ref.newLiteral name).raw = Ref.newLiteral name := by
+  have hne : (name == "") = false := by simpa using h
+  unfold Ref.newLiteral
+  rw [hne]
+  simp only [Bool.false_eq_true, if_false]
+  split
+  · rename_i rest hl
+    unfold Ref.newRef
+    have e1 : (String.ofList ('/' :: Ref.escapeLit name.toList) == "") = false := by
+      simp [← String.toList_inj]
+    have e2 : (String.ofList ('/' :: Ref.escapeLit name.toList) == "/") = false := by
+      rw [hl]; simp [Ref.escapeLit, ← String.toList_inj]
+    rw [e1, e2]
+    simp only [Bool.or_self, Bool.false_eq_true, if_false, String.toList_ofList]
+    have e3 : (Ref.escapeLit name.toList).contains '/' = false := by
+      simpa using escapeLit_no_slash name.toList
+    rw [e3, unescape_escapeLit]
+    simp only [Bool.not_false, if_true, String.ofList_toList]
+  · rename_i hl
+    unfold Ref.newRef
+    have e2 : (name == "/") = false := by
+      rw [beq_eq_false_iff_ne]; intro he; exact hl [] (by rw [he]; rfl)
+    rw [hne, e2]
+    simp only [Bool.or_self, Bool.false_eq_true, if_false]
+    first
+      | done
+      | (split
+         · rename_i path heq; exact absurd heq (hl path)
+         · rfl)
+
+/-- A literal attribute name is in the decoder's range under EVERY context kind. -/
+theorem decoded_newLiteral_any (name ck : String) (h : name ≠ "") : Decoded (Ref.newLiteral name) ck := by
+  by_cases hck : ck = ""
+  · subst hck; exact decoded_newLiteral name h
+  · have := decoded_newRef (Ref.newLiteral name).raw ck (by
+      have := newLiteral_isDefined name
+      intro he
+      have hd : (Ref.newLiteral name).err = none := by
+        unfold Ref.newLiteral
+        have hne : (name == "") = false := by simpa using h
+        rw [hne]; simp only [Bool.false_eq_true, if_false]; split <;> rfl
+      simp [Ref.isDefined, he, hd] at this) hck
+    rwa [newRef_newLiteral_raw name h] at this
+
+
+/-! ### #50: builder-built values (model of `ldbuilders`: `Model/Builders.lean`) -/
+
+open LD.Builders
+
+/-- The values are in ldvalue's canonical form (a Go `ldvalue.Value` always is; a `J` tree need not
+be: duplicate or unsorted object members). -/
+abbrev ValuesOK (vs : List J) : Prop := vs.map normValue = vs
+
+theorem valuesOK_strs (ks : List String) : ValuesOK (ks.map J.str) := by
+  unfold ValuesOK
+  rw [List.map_map]
+  apply List.map_congr_left
+  intro k _; rfl
+
+/-- The clause constructors of ldbuilders, with the arguments the wire schema can express:
+a non-empty literal attribute name (under any context kind), or a reference the schema can express
+under the given kind (`Decoded`: without a kind only a plain name, with a kind any path string);
+values in canonical form. -/
+inductive ClauseBuilt : Clause → Prop
+  | clause (attr op : String) (values : List J) (ha : attr ≠ "") (hv : ValuesOK values) :
+      ClauseBuilt (clause attr op values)
+  | clauseWithKind (kind attr op : String) (values : List J) (ha : attr ≠ "") (hv : ValuesOK values) :
+      ClauseBuilt (clauseWithKind kind attr op values)
+  | clauseRef (r : Ref) (op : String) (values : List J) (hr : Decoded r "") (hv : ValuesOK values) :
+      ClauseBuilt (clauseRef r op values)
+  | clauseRefWithKind (kind : String) (r : Ref) (op : String) (values : List J) (hr : Decoded r kind)
+      (hv : ValuesOK values) : ClauseBuilt (clauseRefWithKind kind r op values)
+  | negate {c : Clause} (h : ClauseBuilt c) : ClauseBuilt (negate c)
+  | segmentMatch (keys : List String) : ClauseBuilt (segmentMatchClause keys)
+
+theorem ClauseBuilt.wf {c : Clause} (h : ClauseBuilt c) : ClauseWf c := by
+  induction h with
+  | clause attr op values ha hv => exact ⟨rfl, decoded_newLiteral attr ha, hv⟩
+  | clauseWithKind kind attr op values ha hv => exact ⟨rfl, decoded_newLiteral_any attr kind ha, hv⟩
+  | clauseRef r op values hr hv => exact ⟨rfl, hr, hv⟩
+  | clauseRefWithKind kind r op values hr hv => exact ⟨rfl, hr, hv⟩
+  | negate _ ih => exact ⟨ih.pre, ih.attr, ih.values⟩
+  | segmentMatch keys => exact ⟨rfl, decoded_empty _, valuesOK_strs keys⟩
+
+/-- `Bucket` / `BucketUntracked` with 64-bit integers. -/
+inductive BucketBuilt : WeightedVariation → Prop
+  | bucket (v w : Int) (hv : IntOK v) (hw : IntOK w) : BucketBuilt (bucket v w)
+  | bucketUntracked (v w : Int) (hv : IntOK v) (hw : IntOK w) : BucketBuilt (bucketUntracked v w)
+
+theorem BucketBuilt.wf {w : WeightedVariation} (h : BucketBuilt w) : WVWf w := by
+  cases h with
+  | bucket v w hv hw => exact ⟨hv, hw⟩
+  | bucketUntracked v w hv hw => exact ⟨hv, hw⟩
+
+/-- `Variation`, `Rollout`, `Experiment`.  A rollout or experiment WITHOUT buckets is excluded: the
+encoder writes no "rollout" member for it, so its kind (and seed) cannot be expressed — see the
+counterexample `rollout_without_buckets_not_expressible` below. -/
+inductive VRBuilt : VariationOrRollout → Prop
+  | variation (i : Int) (hi : IntOK i) : VRBuilt (variation i)
+  | rollout (buckets : List WeightedVariation) (hne : buckets ≠ []) (hb : ∀ w ∈ buckets, BucketBuilt w) :
+      VRBuilt (rollout buckets)
+  | experiment (seed : Option Int) (hs : OptIntOK seed) (buckets : List WeightedVariation)
+      (hne : buckets ≠ []) (hb : ∀ w ∈ buckets, BucketBuilt w) : VRBuilt (experiment seed buckets)
+
+theorem noStale_empty : NoStaleRollout {} := fun _ => rfl
+
+theorem VRBuilt.wf {vr : VariationOrRollout} (h : VRBuilt vr) : VRWf vr ∧ NoStaleRollout vr := by
+  cases h with
+  | variation i hi =>
+    exact ⟨⟨fun n hn => (by cases hn; exact hi), rolloutWf_empty⟩, fun _ => rfl⟩
+  | rollout buckets hne hb =>
+    exact ⟨⟨fun _ hn => (by cases hn), ⟨fun w hw => (hb w hw).wf, fun _ hn => (by cases hn), decoded_empty _⟩⟩,
+      fun he => absurd he hne⟩
+  | experiment seed hs buckets hne hb =>
+    exact ⟨⟨fun _ hn => (by cases hn), ⟨fun w hw => (hb w hw).wf, hs, decoded_empty _⟩⟩,
+      fun he => absurd he hne⟩
+
+/-- States of a `RuleBuilder` reachable with expressible arguments. -/
+inductive RuleBuilt : FlagRule → Prop
+  | new : RuleBuilt newRuleBuilder
+  | clauses {b : FlagRule} (h : RuleBuilt b) (cs : List Clause) (hc : ∀ c ∈ cs, ClauseBuilt c) :
+      RuleBuilt (RuleBuilder.clauses b cs)
+  | id {b : FlagRule} (h : RuleBuilt b) (s : String) : RuleBuilt (RuleBuilder.id b s)
+  | trackEvents {b : FlagRule} (h : RuleBuilt b) (v : Bool) : RuleBuilt (RuleBuilder.trackEvents b v)
+  | variationOrRollout {b : FlagRule} (h : RuleBuilt b) (vr : VariationOrRollout) (hvr : VRBuilt vr) :
+      RuleBuilt (RuleBuilder.variationOrRollout b vr)
+  | variation {b : FlagRule} (h : RuleBuilt b) (i : Int) (hi : IntOK i) : RuleBuilt (RuleBuilder.variation b i)
+
+theorem RuleBuilt.wf {r : FlagRule} (h : RuleBuilt r) : RuleWf r ∧ NoStaleRollout r.vr := by
+  induction h with
+  | new => exact ⟨⟨vrWf_empty, fun _ hc => (by cases hc)⟩, noStale_empty⟩
+  | clauses _ cs hc ih => exact ⟨⟨ih.1.vr, fun c hcm => (hc c hcm).wf⟩, ih.2⟩
+  | id _ s ih => exact ⟨⟨ih.1.vr, ih.1.clauses⟩, ih.2⟩
+  | trackEvents _ v ih => exact ⟨⟨ih.1.vr, ih.1.clauses⟩, ih.2⟩
+  | variationOrRollout _ vr hvr ih => exact ⟨⟨hvr.wf.1, ih.1.clauses⟩, hvr.wf.2⟩
+  | variation _ i hi ih =>
+    exact ⟨⟨(VRBuilt.variation i hi).wf.1, ih.1.clauses⟩, (VRBuilt.variation i hi).wf.2⟩
+
+/-- States of a `FlagBuilder` reachable from `NewFlagBuilder(key)` by its methods, with arguments
+the wire schema can express: 64-bit integers, canonical values, rules / clauses / rollouts as
+above, a debug date that survives `float64` (any date below 2^53 ms, `debug_ok_of_lt`). -/
+inductive FlagBuilt : Flag → Prop
+  | new (key : String) : FlagBuilt (newFlagBuilder key)
+  | addPrerequisite {b : Flag} (h : FlagBuilt b) (key : String) (v : Int) (hv : IntOK v) :
+      FlagBuilt (FlagBuilder.addPrerequisite b key v)
+  | addRule {b : Flag} (h : FlagBuilt b) (r : FlagRule) (hr : RuleBuilt r) : FlagBuilt (FlagBuilder.addRule b r)
+  | addTarget {b : Flag} (h : FlagBuilt b) (v : Int) (keys : List String) (hv : IntOK v) :
+      FlagBuilt (FlagBuilder.addTarget b v keys)
+  | addContextTarget {b : Flag} (h : FlagBuilt b) (kind : String) (v : Int) (keys : List String) (hv : IntOK v) :
+      FlagBuilt (FlagBuilder.addContextTarget b kind v keys)
+  | clientSideUsingEnvironmentID {b : Flag} (h : FlagBuilt b) (v : Bool) :
+      FlagBuilt (FlagBuilder.clientSideUsingEnvironmentID b v)
+  | clientSideUsingMobileKey {b : Flag} (h : FlagBuilt b) (v : Bool) :
+      FlagBuilt (FlagBuilder.clientSideUsingMobileKey b v)
+  | debugEventsUntilDate {b : Flag} (h : FlagBuilt b) (t : Nat) (ht : goUint64 (natToF64 t) = t) :
+      FlagBuilt (FlagBuilder.debugEventsUntilDate b t)
+  | deleted {b : Flag} (h : FlagBuilt b) (v : Bool) : FlagBuilt (FlagBuilder.deleted b v)
+  | excludeFromSummaries {b : Flag} (h : FlagBuilt b) (v : Bool) : FlagBuilt (FlagBuilder.excludeFromSummaries b v)
+  | fallthrough {b : Flag} (h : FlagBuilt b) (vr : VariationOrRollout) (hvr : VRBuilt vr) :
+      FlagBuilt (FlagBuilder.fallthrough b vr)
+  | fallthroughVariation {b : Flag} (h : FlagBuilt b) (i : Int) (hi : IntOK i) :
+      FlagBuilt (FlagBuilder.fallthroughVariation b i)
+  | migrationFlagParameters {b : Flag} (h : FlagBuilt b) (p : Option Int) (hp : OptIntOK p) :
+      FlagBuilt (FlagBuilder.migrationFlagParameters b p)
+  | offVariation {b : Flag} (h : FlagBuilt b) (i : Int) (hi : IntOK i) : FlagBuilt (FlagBuilder.offVariation b i)
+  | on {b : Flag} (h : FlagBuilt b) (v : Bool) : FlagBuilt (FlagBuilder.on b v)
+  | salt {b : Flag} (h : FlagBuilt b) (v : String) : FlagBuilt (FlagBuilder.salt b v)
+  | samplingRatio {b : Flag} (h : FlagBuilt b) (r : Int) (hr : IntOK r) : FlagBuilt (FlagBuilder.samplingRatio b r)
+  | trackEvents {b : Flag} (h : FlagBuilt b) (v : Bool) : FlagBuilt (FlagBuilder.trackEvents b v)
+  | trackEventsFallthrough {b : Flag} (h : FlagBuilt b) (v : Bool) :
+      FlagBuilt (FlagBuilder.trackEventsFallthrough b v)
+  | variations {b : Flag} (h : FlagBuilt b) (vs : List J) (hv : ValuesOK vs) : FlagBuilt (FlagBuilder.variations b vs)
+  | version {b : Flag} (h : FlagBuilt b) (v : Int) (hv : IntOK v) : FlagBuilt (FlagBuilder.version b v)
+  | singleVariation {b : Flag} (h : FlagBuilt b) (v : J) (hv : normValue v = v) :
+      FlagBuilt (FlagBuilder.singleVariation b v)
+
+/-- What the round trip needs of a builder state. -/
+structure FlagExpressible (f : Flag) : Prop where
+  wf : FlagWf f
+  fallthrough : NoStaleRollout f.fallthrough
+  rules : ∀ r ∈ f.rules, NoStaleRollout r.vr
+
+theorem optIntOK_some {i : Int} (hi : IntOK i) : OptIntOK (some i) := fun n hn => (by cases hn; exact hi)
+theorem optIntOK_none : OptIntOK none := fun _ hn => by cases hn
+
+theorem forall_mem_append_singleton {α} {P : α → Prop} {l : List α} {x : α}
+    (hl : ∀ y ∈ l, P y) (hx : P x) : ∀ y ∈ l ++ [x], P y := by
+  intro y hy
+  rcases List.mem_append.mp hy with h | h
+  · exact hl y h
+  · have : y = x := by simpa using h
+    rw [this]; exact hx
+
+theorem FlagBuilt.expressible {f : Flag} (h : FlagBuilt f) : FlagExpressible f := by
+  induction h with
+  | new key =>
+    exact ⟨⟨fun _ h => (by cases h), fun _ h => (by cases h), fun _ h => (by cases h), fun _ h => (by cases h),
+      vrWf_empty, optIntOK_none, rfl, fun _ => rfl, (show goUint64 (natToF64 0) = 0 by decide), intOK_zero, fun _ h => (by cases h),
+      optIntOK_none⟩, noStale_empty, fun _ h => (by cases h)⟩
+  | addPrerequisite _ key v hv ih =>
+    obtain ⟨⟨h1, h2, h3, h4, h5, h6, h7, h8, h9, h10, h11, h12⟩, hf, hr⟩ := ih
+    exact ⟨⟨forall_mem_append_singleton h1 hv, h2, h3, h4, h5, h6, h7, h8, h9, h10, h11, h12⟩, hf, hr⟩
+  | addRule _ r hrb ih =>
+    obtain ⟨⟨h1, h2, h3, h4, h5, h6, h7, h8, h9, h10, h11, h12⟩, hf, hr⟩ := ih
+    exact ⟨⟨h1, h2, h3, forall_mem_append_singleton h4 hrb.wf.1, h5, h6, h7, h8, h9, h10, h11, h12⟩, hf,
+      forall_mem_append_singleton hr hrb.wf.2⟩
+  | addTarget _ v keys hv ih =>
+    obtain ⟨⟨h1, h2, h3, h4, h5, h6, h7, h8, h9, h10, h11, h12⟩, hf, hr⟩ := ih
+    exact ⟨⟨h1, forall_mem_append_singleton h2 ⟨rfl, hv⟩, h3, h4, h5, h6, h7, h8, h9, h10, h11, h12⟩, hf, hr⟩
+  | addContextTarget _ kind v keys hv ih =>
+    obtain ⟨⟨h1, h2, h3, h4, h5, h6, h7, h8, h9, h10, h11, h12⟩, hf, hr⟩ := ih
+    exact ⟨⟨h1, h2, forall_mem_append_singleton h3 ⟨rfl, hv⟩, h4, h5, h6, h7, h8, h9, h10, h11, h12⟩, hf, hr⟩
+  | clientSideUsingEnvironmentID _ v ih =>
+    obtain ⟨⟨h1, h2, h3, h4, h5, h6, h7, h8, h9, h10, h11, h12⟩, hf, hr⟩ := ih
+    exact ⟨⟨h1, h2, h3, h4, h5, h6, h7, fun he => (by cases he), h9, h10, h11, h12⟩, hf, hr⟩
+  | clientSideUsingMobileKey _ v ih =>
+    obtain ⟨⟨h1, h2, h3, h4, h5, h6, h7, h8, h9, h10, h11, h12⟩, hf, hr⟩ := ih
+    exact ⟨⟨h1, h2, h3, h4, h5, h6, h7, fun he => (by cases he), h9, h10, h11, h12⟩, hf, hr⟩
+  | debugEventsUntilDate _ t ht ih =>
+    obtain ⟨⟨h1, h2, h3, h4, h5, h6, h7, h8, h9, h10, h11, h12⟩, hf, hr⟩ := ih
+    exact ⟨⟨h1, h2, h3, h4, h5, h6, h7, h8, ht, h10, h11, h12⟩, hf, hr⟩
+  | deleted _ v ih =>
+    obtain ⟨⟨h1, h2, h3, h4, h5, h6, h7, h8, h9, h10, h11, h12⟩, hf, hr⟩ := ih
+    exact ⟨⟨h1, h2, h3, h4, h5, h6, h7, h8, h9, h10, h11, h12⟩, hf, hr⟩
+  | excludeFromSummaries _ v ih =>
+    obtain ⟨⟨h1, h2, h3, h4, h5, h6, h7, h8, h9, h10, h11, h12⟩, hf, hr⟩ := ih
+    exact ⟨⟨h1, h2, h3, h4, h5, h6, h7, h8, h9, h10, h11, h12⟩, hf, hr⟩
+  | fallthrough _ vr hvr ih =>
+    obtain ⟨⟨h1, h2, h3, h4, h5, h6, h7, h8, h9, h10, h11, h12⟩, hf, hr⟩ := ih
+    exact ⟨⟨h1, h2, h3, h4, hvr.wf.1, h6, h7, h8, h9, h10, h11, h12⟩, hvr.wf.2, hr⟩
+  | fallthroughVariation _ i hi ih =>
+    obtain ⟨⟨h1, h2, h3, h4, h5, h6, h7, h8, h9, h10, h11, h12⟩, hf, hr⟩ := ih
+    exact ⟨⟨h1, h2, h3, h4, (VRBuilt.variation i hi).wf.1, h6, h7, h8, h9, h10, h11, h12⟩,
+      (VRBuilt.variation i hi).wf.2, hr⟩
+  | migrationFlagParameters _ p hp ih =>
+    obtain ⟨⟨h1, h2, h3, h4, h5, h6, h7, h8, h9, h10, h11, h12⟩, hf, hr⟩ := ih
+    exact ⟨⟨h1, h2, h3, h4, h5, h6, h7, h8, h9, h10, fun cr hcr => (by cases hcr; exact hp), h12⟩, hf, hr⟩
+  | offVariation _ i hi ih =>
+    obtain ⟨⟨h1, h2, h3, h4, h5, h6, h7, h8, h9, h10, h11, h12⟩, hf, hr⟩ := ih
+    exact ⟨⟨h1, h2, h3, h4, h5, optIntOK_some hi, h7, h8, h9, h10, h11, h12⟩, hf, hr⟩
+  | on _ v ih =>
+    obtain ⟨⟨h1, h2, h3, h4, h5, h6, h7, h8, h9, h10, h11, h12⟩, hf, hr⟩ := ih
+    exact ⟨⟨h1, h2, h3, h4, h5, h6, h7, h8, h9, h10, h11, h12⟩, hf, hr⟩
+  | salt _ v ih =>
+    obtain ⟨⟨h1, h2, h3, h4, h5, h6, h7, h8, h9, h10, h11, h12⟩, hf, hr⟩ := ih
+    exact ⟨⟨h1, h2, h3, h4, h5, h6, h7, h8, h9, h10, h11, h12⟩, hf, hr⟩
+  | samplingRatio _ r hr' ih =>
+    obtain ⟨⟨h1, h2, h3, h4, h5, h6, h7, h8, h9, h10, h11, h12⟩, hf, hr⟩ := ih
+    exact ⟨⟨h1, h2, h3, h4, h5, h6, h7, h8, h9, h10, h11, optIntOK_some hr'⟩, hf, hr⟩
+  | trackEvents _ v ih =>
+    obtain ⟨⟨h1, h2, h3, h4, h5, h6, h7, h8, h9, h10, h11, h12⟩, hf, hr⟩ := ih
+    exact ⟨⟨h1, h2, h3, h4, h5, h6, h7, h8, h9, h10, h11, h12⟩, hf, hr⟩
+  | trackEventsFallthrough _ v ih =>
+    obtain ⟨⟨h1, h2, h3, h4, h5, h6, h7, h8, h9, h10, h11, h12⟩, hf, hr⟩ := ih
+    exact ⟨⟨h1, h2, h3, h4, h5, h6, h7, h8, h9, h10, h11, h12⟩, hf, hr⟩
+  | variations _ vs hv ih =>
+    obtain ⟨⟨h1, h2, h3, h4, h5, h6, h7, h8, h9, h10, h11, h12⟩, hf, hr⟩ := ih
+    exact ⟨⟨h1, h2, h3, h4, h5, h6, hv, h8, h9, h10, h11, h12⟩, hf, hr⟩
+  | version _ v hv ih =>
+    obtain ⟨⟨h1, h2, h3, h4, h5, h6, h7, h8, h9, h10, h11, h12⟩, hf, hr⟩ := ih
+    exact ⟨⟨h1, h2, h3, h4, h5, h6, h7, h8, h9, hv, h11, h12⟩, hf, hr⟩
+  | singleVariation _ v hv ih =>
+    obtain ⟨⟨h1, h2, h3, h4, h5, h6, h7, h8, h9, h10, h11, h12⟩, hf, hr⟩ := ih
+    exact ⟨⟨h1, h2, h3, h4, h5, optIntOK_some intOK_zero, (by simp [FlagBuilder.singleVariation,
+      FlagBuilder.variations, FlagBuilder.offVariation, FlagBuilder.on, hv]), h8, h9, h10, h11, h12⟩, hf, hr⟩
+
+
+/-- States of a `SegmentRuleBuilder` reachable with expressible arguments.  The bucket-by reference
+and the rollout context kind are set by separate methods and are written together (a plain name
+without a kind, a path string with one), so each of the two setters needs the reference to be
+expressible under the kind that is in place (`Decoded`); a literal `BucketBy(attr)` is expressible
+under every kind (`decoded_newLiteral_any`). -/
+inductive SegRuleBuilt : SegmentRule → Prop
+  | new : SegRuleBuilt newSegmentRuleBuilder
+  | bucketBy {b : SegmentRule} (h : SegRuleBuilt b) (attr : String) (ha : attr ≠ "") :
+      SegRuleBuilt (SegmentRuleBuilder.bucketBy b attr)
+  | bucketByRef {b : SegmentRule} (h : SegRuleBuilt b) (r : Ref) (hr : Decoded r b.rolloutContextKind) :
+      SegRuleBuilt (SegmentRuleBuilder.bucketByRef b r)
+  | clauses {b : SegmentRule} (h : SegRuleBuilt b) (cs : List Clause) (hc : ∀ c ∈ cs, ClauseBuilt c) :
+      SegRuleBuilt (SegmentRuleBuilder.clauses b cs)
+  | id {b : SegmentRule} (h : SegRuleBuilt b) (s : String) : SegRuleBuilt (SegmentRuleBuilder.id b s)
+  | rolloutContextKind {b : SegmentRule} (h : SegRuleBuilt b) (kind : String) (hd : Decoded b.bucketBy kind) :
+      SegRuleBuilt (SegmentRuleBuilder.rolloutContextKind b kind)
+  | weight {b : SegmentRule} (h : SegRuleBuilt b) (w : Int) (hw : IntOK w) :
+      SegRuleBuilt (SegmentRuleBuilder.weight b w)
+
+theorem SegRuleBuilt.wf {r : SegmentRule} (h : SegRuleBuilt r) : SegRuleWf r := by
+  induction h with
+  | new => exact ⟨fun _ hc => (by cases hc), optIntOK_none, decoded_empty _⟩
+  | bucketBy _ attr ha ih => exact ⟨ih.clauses, ih.weight, decoded_newLiteral_any attr _ ha⟩
+  | bucketByRef _ r hr ih => exact ⟨ih.clauses, ih.weight, hr⟩
+  | clauses _ cs hc ih => exact ⟨fun c hcm => (hc c hcm).wf, ih.weight, ih.bucketBy⟩
+  | id _ s ih => exact ⟨ih.clauses, ih.weight, ih.bucketBy⟩
+  | rolloutContextKind _ kind hd ih => exact ⟨ih.clauses, ih.weight, hd⟩
+  | weight _ w hw ih => exact ⟨ih.clauses, optIntOK_some hw, ih.bucketBy⟩
+
+/-- States of a `SegmentBuilder` reachable from `NewSegmentBuilder(key)` with expressible
+arguments. -/
+inductive SegmentBuilt : Segment → Prop
+  | new (key : String) : SegmentBuilt (newSegmentBuilder key)
+  | addRule {b : Segment} (h : SegmentBuilt b) (r : SegmentRule) (hr : SegRuleBuilt r) :
+      SegmentBuilt (SegmentBuilder.addRule b r)
+  | excluded {b : Segment} (h : SegmentBuilt b) (keys : List String) : SegmentBuilt (SegmentBuilder.excluded b keys)
+  | included {b : Segment} (h : SegmentBuilt b) (keys : List String) : SegmentBuilt (SegmentBuilder.included b keys)
+  | includedContextKind {b : Segment} (h : SegmentBuilt b) (kind : String) (keys : List String) :
+      SegmentBuilt (SegmentBuilder.includedContextKind b kind keys)
+  | excludedContextKind {b : Segment} (h : SegmentBuilt b) (kind : String) (keys : List String) :
+      SegmentBuilt (SegmentBuilder.excludedContextKind b kind keys)
+  | version {b : Segment} (h : SegmentBuilt b) (v : Int) (hv : IntOK v) : SegmentBuilt (SegmentBuilder.version b v)
+  | salt {b : Segment} (h : SegmentBuilt b) (v : String) : SegmentBuilt (SegmentBuilder.salt b v)
+  | unbounded {b : Segment} (h : SegmentBuilt b) (v : Bool) : SegmentBuilt (SegmentBuilder.unbounded b v)
+  | unboundedContextKind {b : Segment} (h : SegmentBuilt b) (k : String) :
+      SegmentBuilt (SegmentBuilder.unboundedContextKind b k)
+  | generation {b : Segment} (h : SegmentBuilt b) (g : Int) (hg : IntOK g) :
+      SegmentBuilt (SegmentBuilder.generation b g)
+
+theorem SegmentBuilt.wf {s : Segment} (h : SegmentBuilt s) : SegmentWf s := by
+  induction h with
+  | new key =>
+    exact ⟨rfl, fun _ h => (by cases h), fun _ h => (by cases h), fun _ h => (by cases h), intOK_zero,
+      optIntOK_none⟩
+  | addRule _ r hr ih =>
+    exact ⟨ih.pre, ih.includedContexts, ih.excludedContexts, forall_mem_append_singleton ih.rules hr.wf,
+      ih.version, ih.generation⟩
+  | excluded _ keys ih => exact ⟨ih.pre, ih.includedContexts, ih.excludedContexts, ih.rules, ih.version, ih.generation⟩
+  | included _ keys ih => exact ⟨ih.pre, ih.includedContexts, ih.excludedContexts, ih.rules, ih.version, ih.generation⟩
+  | includedContextKind _ kind keys ih =>
+    exact ⟨ih.pre, forall_mem_append_singleton ih.includedContexts rfl, ih.excludedContexts, ih.rules,
+      ih.version, ih.generation⟩
+  | excludedContextKind _ kind keys ih =>
+    exact ⟨ih.pre, ih.includedContexts, forall_mem_append_singleton ih.excludedContexts rfl, ih.rules,
+      ih.version, ih.generation⟩
+  | version _ v hv ih => exact ⟨ih.pre, ih.includedContexts, ih.excludedContexts, ih.rules, hv, ih.generation⟩
+  | salt _ v ih => exact ⟨ih.pre, ih.includedContexts, ih.excludedContexts, ih.rules, ih.version, ih.generation⟩
+  | unbounded _ v ih => exact ⟨ih.pre, ih.includedContexts, ih.excludedContexts, ih.rules, ih.version, ih.generation⟩
+  | unboundedContextKind _ k ih =>
+    exact ⟨ih.pre, ih.includedContexts, ih.excludedContexts, ih.rules, ih.version, ih.generation⟩
+  | generation _ g hg ih =>
+    exact ⟨ih.pre, ih.includedContexts, ih.excludedContexts, ih.rules, ih.version, optIntOK_some hg⟩
+
+/-- The round trip through the real decoder (read, then preprocess) for ANY preprocessed value the
+schema can express (audit appendix B). -/
+theorem expressible_roundtrip (rx : RegexOracle) (f : Flag) (h : FlagExpressible f) :
+    Codec.decodeFlag rx (Codec.encodeFlag (preprocessFlag rx f)) = .ok (preprocessFlag rx f) := by
+  rw [encodeFlag_preprocess]; unfold decodeFlag
+  rw [flag_roundtrip_exact f h.wf h.fallthrough h.rules]; rfl
+
+/-- **C15, builder half (flags).**  For every flag built with `ldbuilders` from parts the wire
+schema can express, `decode(encode(Build()))` is `Build()` itself — every exported field and every
+preprocessed lookup table — through the model's decoder and through each public entry point:
+whatever any of the four encode paths writes, the serialization object and the encoding/json hook
+decode without error to exactly the built flag. -/
+theorem builder_roundtrip (rx : RegexOracle) (b : Flag) (h : FlagBuilt b) :
+    Codec.decodeFlag rx (Codec.encodeFlag (FlagBuilder.build rx b)) = .ok (FlagBuilder.build rx b) :=
+  expressible_roundtrip rx b h.expressible
+
+theorem builder_roundtrip_entry (rx : RegexOracle) (pv : Entry.Partial) (dest : Flag) (b : Flag)
+    (h : FlagBuilt b) :
+    ∀ doc ∈ (Entry.Serialization.marshalFeatureFlag (FlagBuilder.build rx b)).value,
+      Entry.Serialization.unmarshalFeatureFlag rx pv doc = ⟨FlagBuilder.build rx b, false⟩ ∧
+      Entry.FeatureFlag.unmarshalJSON rx pv dest doc = ⟨FlagBuilder.build rx b, false⟩ := by
+  intro doc hdoc
+  have : doc = Codec.encodeFlag (FlagBuilder.build rx b) := by
+    simpa [Entry.Serialization.marshalFeatureFlag, Entry.marshalFeatureFlag,
+      Entry.marshalFeatureFlagToWriter, Entry.Writer.new] using hdoc
+  subst this
+  unfold Entry.Serialization.unmarshalFeatureFlag
+  rw [Entry.hook_eq, Entry.fromBytes_eq, builder_roundtrip rx b h]
+  exact ⟨rfl, rfl⟩
+
+/-- **C15, builder half (segments).** -/
+theorem segment_builder_roundtrip (rx : RegexOracle) (b : Segment) (h : SegmentBuilt b) :
+    Codec.decodeSegment rx (Codec.encodeSegment (SegmentBuilder.build rx b)) =
+      .ok (SegmentBuilder.build rx b) := by
+  unfold SegmentBuilder.build
+  rw [encodeSegment_preprocess]; unfold decodeSegment
+  rw [segment_roundtrip b h.wf]; rfl
+
+theorem segment_builder_roundtrip_entry (rx : RegexOracle) (pv : Entry.Partial) (dest : Segment)
+    (b : Segment) (h : SegmentBuilt b) :
+    ∀ doc ∈ (Entry.Serialization.marshalSegment (SegmentBuilder.build rx b)).value,
+      Entry.Serialization.unmarshalSegment rx pv doc = ⟨SegmentBuilder.build rx b, false⟩ ∧
+      Entry.Segment.unmarshalJSON rx pv dest doc = ⟨SegmentBuilder.build rx b, false⟩ := by
+  intro doc hdoc
+  have : doc = Codec.encodeSegment (SegmentBuilder.build rx b) := by
+    simpa [Entry.Serialization.marshalSegment, Entry.marshalSegment,
+      Entry.marshalSegmentToWriter, Entry.Writer.new] using hdoc
+  subst this
+  unfold Entry.Serialization.unmarshalSegment
+  rw [Entry.seg_hook_eq, Entry.seg_fromBytes_eq, segment_builder_roundtrip rx b h]
+  exact ⟨rfl, rfl⟩
+
+/-- Builder outputs are what C14 calls preprocessed values of plain ones: the state before `Build()`
+carries no lookup table (so "builders always preprocess", audit #49, holds of the builder model). -/
+theorem builder_state_plain {b : Flag} (h : FlagBuilt b) : C14.PlainFlag b :=
+  ⟨fun t ht => (h.expressible.wf.targets t ht).pre,
+   fun r hr c hc => ((h.expressible.wf.rules r hr).clauses c hc).pre⟩
+
+/-! #### What the builders can build but the wire schema cannot express (so the side conditions of
+`ClauseBuilt`, `VRBuilt` are needed) -/
+
+/-- `ldbuilders.Rollout()` without buckets has kind "rollout"; the encoder writes no "rollout"
+member for a bucket-less rollout, so the kind is gone after a round trip.  (Go:
+`NewFlagBuilder("f").Fallthrough(Rollout()).Build()` is not deeply equal to its re-decoding;
+evaluation is unaffected, `evaluate_drop`.) -/
+theorem rollout_without_buckets_not_expressible :
+    (Codec.readFlag (Codec.encodeFlag (FlagBuilder.fallthrough (newFlagBuilder "f") (rollout [])))).toOption.map
+        (·.fallthrough.rollout.kind) = some "" ∧
+    (Flag.fallthrough (FlagBuilder.fallthrough (newFlagBuilder "f") (rollout []))).rollout.kind = "rollout" := by
+  decide +kernel
+
+/-- `ldbuilders.Clause("", …)` holds the invalid reference `NewLiteralRef("")` (defined, with an
+error); it is written as `"attribute": ""` and read back as the UNDEFINED reference. -/
+theorem empty_attribute_not_expressible :
+    (Codec.readClauses [] (.arr [Codec.encClause (clause "" "in" [])])).toOption.map
+        (fun cs => cs.map (·.attr)) = some [{}] ∧
+    (clause "" "in" []).attr = { err := some .empty } := by
+  decide +kernel
+
+/-- `ClauseRef(NewRef("/a/b"), …)` — a two-component path WITHOUT a context kind — is written as
+its first component `"a"` and read back as the literal name `a`. -/
+theorem path_without_kind_not_expressible :
+    (Codec.readClauses [] (.arr [Codec.encClause (clauseRef (Ref.newRef "/a/b") "in" [])])).toOption.map
+        (fun cs => cs.map (·.attr.raw)) = some ["a"] ∧
+    (clauseRef (Ref.newRef "/a/b") "in" []).attr.raw = "/a/b" := by
+  decide +kernel
+
+/-! #### Non-vacuity: a builder chain using most methods -/
+
+def exBuilt : Flag :=
+  newFlagBuilder "flag"
+    |>.on true
+    |>.variations [.bool false, .bool true, .str "x"]
+    |>.offVariation 0
+    |>.fallthrough (experiment (some 7) [bucket 0 40000, bucketUntracked 1 60000])
+    |>.addPrerequisite "other" 1
+    |>.addTarget 1 ["u1", "u2"]
+    |>.addContextTarget "org" 2 ["o1"]
+    |>.addRule (newRuleBuilder
+        |>.id "r1"
+        |>.clauses [clause "/weird~name" "in" [.str "a"], negate (clauseWithKind "org" "/weird~name" "in" [.num 3]),
+                    clauseRefWithKind "org" (Ref.newRef "/addr/city") "startsWith" [.str "P"],
+                    segmentMatchClause ["s1", "s2"]]
+        |>.variationOrRollout (rollout [bucket 2 100000])
+        |>.trackEvents true)
+    |>.addRule (newRuleBuilder |>.variation 1)
+    |>.clientSideUsingEnvironmentID true
+    |>.debugEventsUntilDate 1700000000000
+    |>.migrationFlagParameters (MigrationBuilder.build (MigrationBuilder.checkRatio newMigrationFlagParametersBuilder 5))
+    |>.samplingRatio 10
+    |>.excludeFromSummaries true
+    |>.salt "salt"
+    |>.version 12
+
+theorem exBuilt_built : FlagBuilt exBuilt := by
+  have ok : ∀ n : Int, -1000000 ≤ n → n ≤ 1000000 → IntOK n := intOK_small
+  unfold exBuilt
+  refine .version (.salt (.excludeFromSummaries (.samplingRatio (.migrationFlagParameters
+    (.debugEventsUntilDate (.clientSideUsingEnvironmentID (.addRule (.addRule (.addContextTarget
+    (.addTarget (.addPrerequisite (.fallthrough (.offVariation (.variations (.on (.new "flag") true)
+      _ (by rfl)) 0 intOK_zero) _ ?ft) "other" 1 (ok _ (by decide) (by decide)))
+      1 _ (ok _ (by decide) (by decide))) "org" 2 _ (ok _ (by decide) (by decide)))
+      _ ?r1) _ ?r2) true) _ (debug_ok_of_lt _ (by decide))) _ (optIntOK_some (ok _ (by decide) (by decide))))
+      10 (ok _ (by decide) (by decide))) true) "salt") 12 (ok _ (by decide) (by decide))
+  case ft =>
+    refine .experiment _ (optIntOK_some (ok _ (by decide) (by decide))) _ (by simp) ?_
+    intro w hw
+    simp at hw
+    rcases hw with rfl | rfl
+    · exact .bucket _ _ intOK_zero (ok _ (by decide) (by decide))
+    · exact .bucketUntracked _ _ (ok _ (by decide) (by decide)) (ok _ (by decide) (by decide))
+  case r1 =>
+    refine .trackEvents (.variationOrRollout (.clauses (.id .new "r1") _ ?_) _ ?_) true
+    · intro c hc
+      simp at hc
+      rcases hc with rfl | rfl | rfl | rfl
+      · exact .clause _ _ _ (by decide) rfl
+      · exact .negate (.clauseWithKind _ _ _ _ (by decide) rfl)
+      · exact .clauseRefWithKind _ _ _ _ (decoded_newRef _ _ (by decide) (by decide)) rfl
+      · exact .segmentMatch _
+    · refine .rollout _ (by simp) ?_
+      intro w hw
+      simp at hw
+      subst hw
+      exact .bucket _ _ (ok _ (by decide) (by decide)) (ok _ (by decide) (by decide))
+  case r2 => exact .variation .new 1 (ok _ (by decide) (by decide))
+
+/-- The hypotheses of `builder_roundtrip` are satisfiable by a non-trivial builder chain. -/
+example (rx : RegexOracle) :
+    Codec.decodeFlag rx (Codec.encodeFlag (FlagBuilder.build rx exBuilt)) = .ok (FlagBuilder.build rx exBuilt) :=
+  builder_roundtrip rx exBuilt exBuilt_built
+
+def exBuiltSegment : Segment :=
+  newSegmentBuilder "seg"
+    |>.included ["a", "b"]
+    |>.excluded ["c"]
+    |>.includedContextKind "org" ["o1"]
+    |>.excludedContextKind "org" []
+    |>.addRule (newSegmentRuleBuilder
+        |>.id "sr"
+        |>.clauses [clause "email" "endsWith" [.str "@x.com"]]
+        |>.weight 30000
+        |>.bucketBy "/lit"
+        |>.rolloutContextKind "org")
+    |>.unbounded true
+    |>.unboundedContextKind "org"
+    |>.generation 3
+    |>.salt "s"
+    |>.version 4
+
+theorem exBuiltSegment_built : SegmentBuilt exBuiltSegment := by
+  have ok : ∀ n : Int, -1000000 ≤ n → n ≤ 1000000 → IntOK n := intOK_small
+  unfold exBuiltSegment
+  refine .version (.salt (.generation (.unboundedContextKind (.unbounded (.addRule (.excludedContextKind
+    (.includedContextKind (.excluded (.included (.new "seg") _) _) "org" _) "org" _) _ ?r) true) "org")
+    3 (ok _ (by decide) (by decide))) "s") 4 (ok _ (by decide) (by decide))
+  refine .rolloutContextKind (.bucketBy (.weight (.clauses (.id .new "sr") _ ?_) 30000
+    (ok _ (by decide) (by decide))) "/lit" (by decide)) "org" (decoded_newLiteral_any "/lit" "org" (by decide))
+  intro c hc
+  simp at hc
+  subst hc
+  exact .clause _ _ _ (by decide) rfl
+
+example (rx : RegexOracle) :
+    Codec.decodeSegment rx (Codec.encodeSegment (SegmentBuilder.build rx exBuiltSegment)) =
+      .ok (SegmentBuilder.build rx exBuiltSegment) :=
+  segment_builder_roundtrip rx exBuiltSegment exBuiltSegment_built
+
+
+/-! ### #53, #51: the second step through the real decoder; the debug-date hypothesis -/
+
+/-- **One step reaches the fixed point, through `decodeFlag`** (read + preprocess): for a decoded
+flag `g`, `g' = dropEmptyRollouts g` has the same canonical JSON as `g` and decodes from it to
+itself. -/
+theorem decodeFlag_fixed_point (rx : RegexOracle) (doc : J) (g : Flag) (h : Codec.decodeFlag rx doc = .ok g)
+    (hdebug : Codec.goUint64 (Codec.natToF64 g.fmeta.debugEventsUntilDate) = g.fmeta.debugEventsUntilDate) :
+    Codec.encodeFlag (dropEmptyRollouts g) = Codec.encodeFlag g ∧
+    Codec.decodeFlag rx (Codec.encodeFlag (dropEmptyRollouts g)) = .ok (dropEmptyRollouts g) := by
+  refine ⟨encodeFlag_drop g, ?_⟩
+  rw [encodeFlag_drop]; exact decodeFlag_roundtrip rx doc g h hdebug
+
+/-- The debug-date hypothesis of the round-trip theorems is discharged for every decoded flag whose
+`debugEventsUntilDate` is below 2^53 ms (any real date). -/
+theorem decodeFlag_roundtrip_of_lt (rx : RegexOracle) (doc : J) (g : Flag) (h : Codec.decodeFlag rx doc = .ok g)
+    (hlt : g.fmeta.debugEventsUntilDate < 2 ^ 53) :
+    Codec.decodeFlag rx (Codec.encodeFlag g) = .ok (dropEmptyRollouts g) ∧
+    Codec.decodeFlag rx (Codec.encodeFlag (dropEmptyRollouts g)) = .ok (dropEmptyRollouts g) :=
+  ⟨decodeFlag_roundtrip rx doc g h (debug_ok_of_lt _ hlt),
+   (decodeFlag_fixed_point rx doc g h (debug_ok_of_lt _ hlt)).2⟩
+
+/-- The round trip stated on the public entry points: a flag obtained without error from the
+serialization object, marshalled by it and unmarshalled again (under any half-built-value oracle)
+comes back without error as `dropEmptyRollouts g`, which evaluates like `g` (`evaluate_drop`). -/
+theorem entry_roundtrip (rx : RegexOracle) (pv pv' : Entry.Partial) (doc : J) (g : Flag)
+    (h : Entry.Serialization.unmarshalFeatureFlag rx pv doc = ⟨g, false⟩)
+    (hdebug : Codec.goUint64 (Codec.natToF64 g.fmeta.debugEventsUntilDate) = g.fmeta.debugEventsUntilDate) :
+    ∀ d ∈ (Entry.Serialization.marshalFeatureFlag g).value,
+      Entry.Serialization.unmarshalFeatureFlag rx pv' d = ⟨dropEmptyRollouts g, false⟩ ∧
+      ∀ env, evaluate env (dropEmptyRollouts g) = evaluate env g := by
+  intro d hd
+  have hd' : d = Codec.encodeFlag g := by
+    simpa [Entry.Serialization.marshalFeatureFlag, Entry.marshalFeatureFlag,
+      Entry.marshalFeatureFlagToWriter, Entry.Writer.new] using hd
+  subst hd'
+  have hg : Codec.decodeFlag rx doc = .ok g := by
+    unfold Entry.Serialization.unmarshalFeatureFlag at h
+    rw [Entry.fromBytes_eq] at h
+    cases hdoc : Codec.decodeFlag rx doc with
+    | error e => rw [hdoc] at h; cases h
+    | ok g' => rw [hdoc] at h; cases h; rfl
+  refine ⟨?_, fun env => evaluate_drop env g⟩
+  unfold Entry.Serialization.unmarshalFeatureFlag
+  rw [Entry.fromBytes_eq, decodeFlag_roundtrip rx doc g hg hdebug]
+
+#print axioms unescape_escapeLit
+#print axioms escapeLit_no_slash
+#print axioms newRef_newLiteral_raw
+#print axioms decoded_newLiteral_any
+#print axioms valuesOK_strs
+#print axioms ClauseBuilt.wf
+#print axioms BucketBuilt.wf
+#print axioms noStale_empty
+#print axioms VRBuilt.wf
+#print axioms RuleBuilt.wf
+#print axioms optIntOK_some
+#print axioms optIntOK_none
+#print axioms forall_mem_append_singleton
+#print axioms FlagBuilt.expressible
+#print axioms SegRuleBuilt.wf
+#print axioms SegmentBuilt.wf
+#print axioms expressible_roundtrip
+#print axioms builder_roundtrip
+#print axioms builder_roundtrip_entry
+#print axioms segment_builder_roundtrip
+#print axioms segment_builder_roundtrip_entry
+#print axioms builder_state_plain
+#print axioms rollout_without_buckets_not_expressible
+#print axioms empty_attribute_not_expressible
+#print axioms path_without_kind_not_expressible
+#print axioms exBuilt_built
+#print axioms exBuiltSegment_built
+#print axioms decodeFlag_fixed_point
+#print axioms decodeFlag_roundtrip_of_lt
+#print axioms entry_roundtrip
 
 end LD.C15
